@@ -859,6 +859,11 @@ def gen_resp(rng: random.Random, sid: str, focus: str, thorough: bool = False) -
                 fin['known'] = fresh_known(fin.get('known', []))
                 fin['src'] = src
                 fin['port'] = q.get('port', 5353)
+                if rng.random() < 0.25:
+                    # the other query comes from another port of the same address (a legacy resolver on the host whose mDNS
+                    # responder sent the truncated query, or the other way round)
+                    fin['port'] = 40000 if fin['port'] == 5353 else 5353
+                    fin['otherport'] = True
                 steps.append(fin)
             continue
         if focus == 'c16' or rng.random() < 0.03:
